@@ -8,7 +8,7 @@ PROPS : which theorems (Props/<id>.v) and which suite columns decide each proper
 SUITES = {
     "limiter": dict(
         test="TestLimiter", coq_module="Cases.LimiterCase", case_type="lim_case", eval="eval_lim_case",
-        cols=["diff", "mon_window", "mon_burst", "cls_cleanup_regrant", "nt_c09"],
+        cols=["diff", "mon_window", "mon_burst", "cls_cleanup_regrant", "nt_c09", "mon_first_burst"],
         batches={"quick": 4, "thorough": 16}, timeout={"quick": 300, "thorough": 3000},
     ),
 }
@@ -34,7 +34,7 @@ SUITES["lbseq"] = dict(
           "mon_c04_list", "mon_c04_only_after", "mon_c04_mirror", "mon_c07_lb", "mon_c09_gate",
           "mon_c11", "cls_readd_draining", "mon_c13_total", "mon_c13_partition", "mon_c13_backend", "mon_c13_gauge",
           "cls_seen_nobackend", "cls_seen_abort", "mon_c03_recover",
-          "nt_c02", "nt_c04", "nt_c07", "nt_c09", "nt_c11", "nt_c13", "nt_c03"],
+          "nt_c02", "nt_c04", "nt_c07", "nt_c09", "nt_c11", "nt_c13", "nt_c03", "mon_c03_fault_visible"],
     batches={"quick": 6, "thorough": 16}, timeout={"quick": 400, "thorough": 3000},
 )
 
@@ -91,7 +91,7 @@ SUITES["tunnel"] = dict(
 
 SUITES["probe"] = dict(
     test="TestProbe", coq_module="Cases.ProbeCase", case_type="pr_case", eval="eval_pr_case",
-    cols=["diff", "mon_c19_stop_returns", "mon_c19_no_probe_after", "nt_c19", "nt_c04"],
+    cols=["diff", "mon_c19_stop_returns", "mon_c19_no_probe_after", "nt_c19", "nt_c04", "mon_c04_probe_window"],
     batches={"quick": 4, "thorough": 16}, timeout={"quick": 300, "thorough": 3000},
 )
 
@@ -116,7 +116,7 @@ SUITES["sched"] = dict(
 PROPS = {
     "C09": dict(
         props_file="Props/C09.v",
-        suites=[dict(suite="limiter", corr=["diff"], monitors=["mon_window", "mon_burst"],
+        suites=[dict(suite="limiter", corr=["diff"], monitors=["mon_window", "mon_burst", "mon_first_burst"],
                      classifiers={"cleanup-regrant": "cls_cleanup_regrant"}, nontrivial="nt_c09"),
                 dict(suite="lbseq", corr=["diff_begin"], monitors=["mon_c09_gate"], classifiers={}, nontrivial="nt_c09")],
         rule="limiter histories under virtual time (corpus + seeded structured random: 1-4 clients, max 1..5, "
@@ -227,8 +227,11 @@ _LB_TRUST = ["model Model/LB.v (+Strategy/Limiter/Breaker/ClientIP) of internal/
 PROPS["C02"] = dict(
     props_file="Props/C02.v",
     suites=[dict(suite="lbseq", corr=["diff_begin"], monitors=["mon_c02_disp", "mon_c02_503"],
-                 classifiers={}, nontrivial="nt_c02")],
-    rule="balancer histories under virtual time: 5 strategies x pools 1..5 (+admin add/remove), passive ejections by 5xx/502, "
+                 classifiers={}, nontrivial="nt_c02"),
+            # ejection by the active checker: no traffic inside the window whatever later probes say
+            dict(suite="probe", corr=["diff"], monitors=["mon_c04_probe_window"], classifiers={}, nontrivial="nt_c04")],
+    rule="probe suite: backends ejected by failed probes, later probes scripted ok inside the window, traffic in between; "
+         "balancer histories under virtual time: 5 strategies x pools 1..5 (+admin add/remove), passive ejections by 5xx/502, "
          "windows straddled by +-1 ns gaps, overlapping requests held open by the scripted transports; non-trivial = the pool has "
          ">= 2 backends and at least one is inside its window at a dispatch; distinct = by case hash",
     level_text="Theorems: in EVERY reachable state (any history of requests, outcomes, time, probes and admin operations) and under every "
@@ -244,7 +247,7 @@ PROPS["C04"] = dict(
     props_file="Props/C04.v",
     suites=[dict(suite="lbseq", corr=["diff_begin", "diff_admin"], monitors=["mon_c04_list", "mon_c04_only_after", "mon_c04_mirror", "mon_c02_disp", "mon_c02_503"],
                  classifiers={}, nontrivial="nt_c04"),
-            dict(suite="probe", corr=["diff"], monitors=[], classifiers={}, nontrivial="nt_c04"),
+            dict(suite="probe", corr=["diff"], monitors=["mon_c04_probe_window"], classifiers={}, nontrivial="nt_c04"),
             dict(suite="sched", corr=["diff_obs", "diff_trace"], monitors=["mon_sched_prop", "mon_sched_finished"], classifiers={},
                  nontrivial="nt_sched", filter=lambda c: c["repl"].get("scenario") == 1)],
     rule="sched: every interleaving of the critical sections of 1-2 lazy-expiry checks (IsBackendHealthy) and 1-2 fresh ejections "
@@ -300,7 +303,7 @@ PROPS["C13"] = dict(
 )
 PROPS["C03"] = dict(
     props_file="Props/C03.v",
-    suites=[dict(suite="lbseq", corr=["diff_begin", "diff_end"], monitors=["mon_c03_recover"],
+    suites=[dict(suite="lbseq", corr=["diff_begin", "diff_end"], monitors=["mon_c03_recover", "mon_c03_fault_visible"],
                  classifiers={}, nontrivial="nt_c03"),
             # backend faults as the active checker sees them (refused, wrong status, no answer): the process must survive every one
             dict(suite="probe", corr=["diff"], monitors=["mon_c19_stop_returns"], classifiers={}, nontrivial="nt_c04")],
